@@ -16,28 +16,47 @@ CONSTS = dict(HttpItems='HttpAll', Items='ItemsT', MaxItems=80, ChunkMax=4, MaxI
 CALL = {"send_text": "send_text", "send_ping": "send_ping", "close": "close"}
 
 
-def alphabet():
+def trace_module(mc, items, http):
+    """TraceLomond instantiated on another alphabet module (text of spec/TraceLomond.tla with the EXTENDS line replaced)."""
+    text = open(os.path.join(tlc.SPEC_DIR, 'TraceLomond.tla')).read()
+    name = 'TraceLomond_' + mc
+    text = text.replace('MODULE TraceLomond', 'MODULE ' + name).replace('EXTENDS MC_C07, IOUtils', 'EXTENDS %s, IOUtils' % mc)
+    text = text.replace('TInit ==', 'TEmitAlphabet == pc # "start" \\/ PrintT(ToJson([alphabet |-> [items |-> %s, http |-> %s]]))\nTInit ==' % (items, http))
+    return (name, text)
+
+
+def alphabet(mc='MC_C07', items='ItemsT', http='HttpAll', cfgname='CfgIdle'):
     consts = dict(sessprop.DEFAULTS)
-    consts.update(HttpItems='HttpAll', Items='ItemsT', Cfg='CfgIdle', MaxItems=0)
-    res = tlc.run('MC_C07', sessprop.cfg_text(consts, invariants=('EmitAlphabet',)), timeout=300, workers=2)
+    consts.update(HttpItems=http, Items=items, Cfg=cfgname, MaxItems=0)
+    d = tlc.scratch_dir()
+    try:
+        path = os.path.join(d, 'dummy.ndjson')
+        with open(path, 'w') as fh:
+            fh.write(json.dumps({"id": 0, "script": {"dns": "ok", "net": [], "writes": [], "stream": [], "steps": [], "react": []}, "rec": []}) + '\n')
+        res = tlc.run(trace_module(mc, items, http), sessprop.cfg_text(consts, invariants=('TEmitAlphabet',), spec='TSpec'), timeout=300, workers=2,
+                      env={"TRACE_FILE": path})
+    finally:
+        import shutil
+        shutil.rmtree(d, ignore_errors=True)
     for l in res.lines:
         if isinstance(l, dict) and 'alphabet' in l:
             return l['alphabet'], res
-    raise pipeline.MachineryFailure('MC_C07 did not print its alphabet')
+    raise pipeline.MachineryFailure('%s did not print its alphabet' % mc)
 
 
-def random_script(rng, alpha, timers):
+def random_script(rng, alpha, timers, with_faults=True, after_close=True):
     s = {"dns": "ok", "net": ["ok"], "writes": [], "stream": [], "steps": [], "react": []}
-    r = rng.random()
+    r = rng.random() if with_faults else 1.0
     if r < 0.04:
         s['dns'] = 'fail'
     elif r < 0.10:
         s['net'] = ['refused', 'refused']
     elif r < 0.16:
         s['net'] = ['refused', 'ok']
-    s['writes'] = [('error' if rng.random() < 0.03 else 'ok') for _ in range(60)]
+    s['writes'] = [('error' if (with_faults and rng.random() < 0.03) else 'ok') for _ in range(60)]
     n = rng.randint(3, 25)
-    faulty = rng.random() < 0.4
+    faulty = with_faults and rng.random() < 0.4
+    closed = False
     partial = False
     first = True
     for _ in range(n):
@@ -59,11 +78,17 @@ def random_script(rng, alpha, timers):
                 first = False
                 k -= 1
             for _ in range(k):
+                if closed and not after_close:
+                    break
                 it = rng.choice(alpha['items'])
                 chunk.append(it)
                 if it['t'] == 'part':
                     partial = True
                     break
+                if it['t'] == 'f' and it['op'] == 8:
+                    closed = True
+            if not chunk:
+                break
             s['stream'].extend(chunk)
             s['steps'].append({"kind": "data", "dt": dt, "items": len(chunk)})
     s['steps'].append({"kind": "eof", "dt": 0})
@@ -72,11 +97,11 @@ def random_script(rng, alpha, timers):
     return s
 
 
-def validate(run, tier, cfgname, cfg, n):
-    alpha, res0 = alphabet()
-    run.add_tlc('MC_C07 alphabet', res0)
+def validate(run, tier, cfgname, cfg, n, mc='MC_C07', items='ItemsT', http='HttpAll', faults=None, after_close=True):
+    alpha, res0 = alphabet(mc, items, http, cfgname)
+    run.add_tlc('%s alphabet' % mc, res0)
     rng = random.Random(run.seed * 31 + (1 if cfgname == 'CfgTimers' else 0))
-    scripts = [random_script(rng, alpha, cfgname == 'CfgTimers') for _ in range(n)]
+    scripts = [random_script(rng, alpha, cfgname == 'CfgTimers', faults is None or bool(faults), after_close) for _ in range(n)]
     scs = [replay.script_to_scenario(s, cfg, naddr=2) for s in scripts]
     logs = pipeline.execute(scs)
     objs = []
@@ -103,8 +128,9 @@ def validate(run, tier, cfgname, cfg, n):
         canaries.append(c)
     objs = objs + canaries
     consts = dict(sessprop.DEFAULTS)
-    consts.update(CONSTS, Cfg=cfgname)
+    consts.update(CONSTS, Cfg=cfgname, Items=items, HttpItems=http, AfterClose=after_close)
     cfgtext = sessprop.cfg_text(consts, invariants=('Accept',), spec='TSpec')
+    tmod = trace_module(mc, items, http)
     accepted = set()
     states = 0
     from concurrent.futures import ThreadPoolExecutor
@@ -117,7 +143,7 @@ def validate(run, tier, cfgname, cfg, n):
             with open(path, 'w') as fh:
                 for o in part:
                     fh.write(json.dumps(tlc.tlcify(o), separators=(',', ':')) + '\n')
-            return tlc.run('TraceLomond', cfgtext, env={"TRACE_FILE": path}, timeout=1800, workers=2, heap='3g')
+            return tlc.run(tmod, cfgtext, env={"TRACE_FILE": path}, timeout=1800, workers=2, heap='3g')
         finally:
             import shutil
             shutil.rmtree(d, ignore_errors=True)
